@@ -1326,37 +1326,16 @@ impl Bmi2BlockOps {
         for &k in indices {
             // Find the first block where cumulative count > k
             // This gives us the block containing the k-th one (0-indexed)
-            let block_idx = match cumulative_counts.binary_search(&(k + 1)) {
-                Ok(idx) => {
-                    // Exact match means k+1 ones are before this block
-                    // So the k-th one is in the previous block
-                    if idx == 0 {
-                        return Err(ZiporaError::invalid_data(format!(
-                            "Select index {} out of bounds - no ones before first block",
-                            k
-                        )));
-                    }
-                    idx - 1
-                }
-                Err(idx) => {
-                    // idx is where k+1 would be inserted
-                    // So block idx-1 is where the k-th one is located
-                    if idx == 0 {
-                        return Err(ZiporaError::invalid_data(format!(
-                            "Select index {} out of bounds - before first block",
-                            k
-                        )));
-                    }
-                    idx - 1
-                }
-            };
-
-            if block_idx >= blocks.len() {
+            // cumulative_counts is non-decreasing (all-zero blocks repeat a value): the block holding the k-th one is the
+            // one before the first entry that exceeds k
+            let idx = cumulative_counts.partition_point(|&c| c <= k);
+            if idx == 0 || idx > blocks.len() {
                 return Err(ZiporaError::invalid_data(format!(
                     "Select index {} out of bounds",
                     k
                 )));
             }
+            let block_idx = idx - 1;
 
             let ones_before_block = cumulative_counts[block_idx];
             let k_in_block = k - ones_before_block;
